@@ -162,5 +162,10 @@ def run(ctx):
     ctx.guarded("C12.drain", rule_drain, ctx)
     from .c18 import rule_prim
     ctx.guarded("C12.order", rule_prim, ctx, "C12.order", ("detached",))
+    # the codec objects serve every send / receive of the coder layer: a failed encode or decode leaves nothing behind
+    from ..state import stateless_after_init
+    ctx.rule("C12.clean", "encoder and decoder keep no per-call data in instance attributes", floor=2)
+    for rel, cn in (("yowsup/layers/coder/encoder.py", "WriteEncoder"), ("yowsup/layers/coder/decoder.py", "ReadDecoder")):
+        ctx.guarded("C12.clean", stateless_after_init, ctx, "C12.clean", ctx.repo.cls(rel, cn))
     from . import c12_order
     c12_order.run(ctx)
